@@ -307,6 +307,66 @@ def consumers(rep, tier, sd):
                                   "Schedule.dt_to_end_of_time_window at %s (interval %d min) = %s, first minute outside the core standing time is +%d min; %r"
                                   % (now.isoformat(), interval, got, m, cst), {"unit": "consumers", "case": {"cst": cst, "now": now.isoformat(), "interval": interval}})
                 break
+    # peak_load_window: the window series reported per connector (Scenario.gcWindowSchedule) is the window predicate (tied to the
+    # model above) of THAT connector's grid operator and voltage level at every step time; two connectors with the same voltage
+    # level but different operators (round-3 seed C15-s6)
+    import contextlib
+    import io
+    import json as json_
+    import os
+    import shutil
+    import tempfile
+    import warnings
+    tmp = tempfile.mkdtemp(prefix="verif_c15w_")
+    try:
+        for k in range(3 if tier == "quick" else 20):
+            interval = rng.choice([15, 30, 60])
+            nint = rng.choice([24, 48])
+            start = datetime.datetime(2020, rng.choice([1, 3]), rng.randint(1, 20), rng.choice([0, 6, 22]), 0,
+                                      tzinfo=datetime.timezone(datetime.timedelta(hours=1)))
+
+            def seasons():
+                h1 = rng.randrange(0, 20)
+                return {"s1": {"start": "2020-01-01", "end": "2020-02-%02d" % rng.randint(10, 28),
+                               "windows": {"MV": [["%02d:00" % h1, "%02d:%02d" % (h1 + rng.randint(1, 3), rng.choice([0, 30]))]],
+                                           "HV": [["12:00", "13:00"]]}},
+                        "s2": {"start": "2020-03-01", "end": "2020-12-31",
+                               "windows": {"MV": [["%02d:00" % rng.randrange(0, 11), "%02d:00" % rng.randrange(12, 23)]]}}}
+            tw = {"op_a": seasons(), "op_b": seasons()}
+            twp = os.path.join(tmp, "tw%d.json" % k)
+            json_.dump(tw, open(twp, "w"))
+            comp = {"vehicle_types": {"t": {"name": "t", "capacity": 50, "charging_curve": [[0, 11], [1, 11]]}}, "vehicles": {},
+                    "charging_stations": {}, "grid_connectors": {}, "batteries": {}, "photovoltaics": {}}
+            for g, op in (("GC_a", "op_a"), ("GC_b", "op_b")):
+                comp["grid_connectors"][g] = {"max_power": 100, "voltage_level": "MV", "grid_operator": op, "cost": {"type": "fixed", "value": 0.1}}
+                comp["charging_stations"]["cs_" + g] = {"max_power": 11, "parent": g}
+                comp["vehicles"]["v_" + g] = {"vehicle_type": "t", "soc": 0.3, "desired_soc": 0.9, "connected_charging_station": "cs_" + g,
+                                              "estimated_time_of_departure": (start + datetime.timedelta(minutes=interval * (nint - 2))).isoformat()}
+            js = {"scenario": {"start_time": start.isoformat(), "interval": interval, "n_intervals": nint}, "components": comp,
+                  "events": {"grid_operator_signals": [], "fixed_load": {}, "local_generation": {}, "vehicle_events": []}}
+            sobj = scenario.Scenario(js)
+            with warnings.catch_warnings(), contextlib.redirect_stdout(io.StringIO()):
+                warnings.simplefilter("ignore")
+                sobj.run("peak_load_window", {"time_windows": twp, "skip_flex_report": True})
+            raw = json_.load(open(twp))
+            for g, op in (("GC_a", "op_a"), ("GC_b", "op_b")):
+                seas = {}
+                for sn, info in raw[op].items():
+                    seas[sn] = {"start": datetime.date.fromisoformat(info["start"]), "end": datetime.date.fromisoformat(info["end"]),
+                                "windows": {lv: [(datetime.time.fromisoformat(a), datetime.time.fromisoformat(b_)) for a, b_ in ws]
+                                            for lv, ws in info["windows"].items()}}
+                want = [util.datetime_within_time_window(sobj.start_time + i * sobj.interval, seas, "MV") for i in range(sobj.step_i)]
+                got = list(sobj.gcWindowSchedule[g])[:sobj.step_i]
+                n += len(want)
+                if [bool(x) for x in got] != [bool(x) for x in want]:
+                    bad = [i for i, (a, b_) in enumerate(zip(got, want)) if bool(a) != bool(b_)]
+                    rep.add_violation("C15/plw-window-series", "peak_load_window: window series reported for %s (operator %s) differs from the window "
+                                      "predicate of that operator at steps %s (of %d); windows %r; start %s interval %d"
+                                      % (g, op, bad[:6], len(want), raw, start.isoformat(), interval),
+                                      {"unit": "consumers", "case": {"js": js, "tw": raw}})
+                    break
+    finally:
+        shutil.rmtree(tmp, ignore_errors=True)
     rep.cov["evaluations"] += n
     rep.notes["consumer_calls"] = n
 
